@@ -122,7 +122,7 @@ class C05(Property):
                 ctx.fail(fkey, detail, self._shrunk(ctx, spec, seeds_, fkey))
             for r in runs:
                 if r["outcome"]["kind"] == "harness-error":
-                    ctx.notes.append(f"harness error: {r['outcome']['detail'][:200]}")
+                    ctx.notes.append(f"harness error: {r['outcome']['detail'][:1500]}")
             lines.append(f"den {wfcheck.spec_words(spec)}")
             metas.append((spec, runs))
             # operational model of the grouping loop: real arrival orders in, real emission order out
